@@ -437,6 +437,9 @@ func (r *renderer) annotation(n Node) string {
 	return s
 }
 
+// pipeSpelling is how the alternatives of a type shortcut are joined: " | " in the house style; C09 / C13 also use "|" and "  |  ".
+var pipeSpelling = " | "
+
 func hasItemNotes(rules []Rule) bool {
 	for _, ru := range rules {
 		if ru.V.T == "list" {
@@ -462,7 +465,7 @@ func (r *renderer) head(n Node) string { // first token of a node
 	case "lit":
 		return n.V.JSON()
 	case "ref":
-		return strings.Join(n.Names, " | ")
+		return strings.Join(n.Names, pipeSpelling)
 	case "obj":
 		if len(n.Props) == 0 {
 			return "{" + pad + "}"
